@@ -224,7 +224,8 @@ pub fn run(ctx: &Ctx) -> Finish {
     let removed = RemRep {
         constraint: ConRep::new(40, LE_ZERO, Some(FnRep::Lin { terms: vec![(1, 1.0), (12, 2.0), (10, 1.0)], c: 0.0 })).with_meta("r"),
         reason: "because".into(),
-        parameters: vec![("x".into(), "y".into())],
+        // metadata as the penalty method leaves it (names a supplied parameter): still to be left alone
+        parameters: vec![("parameter_id".into(), "10".into())],
     };
     ctx.par(fs.len(), |l, i| {
         let f = &fs[i];
@@ -232,6 +233,8 @@ pub fn run(ctx: &Ctx) -> Finish {
         for (ci, con_list) in std::iter::once(vec![])
             .chain(con_fs.iter().enumerate().filter(|(k, _)| t || (k + i) % 3 == 0).map(|(k, g)| vec![ConRep::new(3, if k % 2 == 0 { EQ_ZERO } else { LE_ZERO }, Some(g.clone())).with_meta("c")]))
             .chain(std::iter::once(vec![ConRep::new(5, LE_ZERO, Some(f.clone())), ConRep::new(3, EQ_ZERO, None)]))
+            // a constraint without function listed BEFORE one that carries parameters
+            .chain(std::iter::once(vec![ConRep::new(3, EQ_ZERO, None), ConRep::new(5, LE_ZERO, Some(f.clone()))]))
             .enumerate()
         {
             for with_removed in [false, true] {
